@@ -288,14 +288,16 @@ def r034(ctx):
     ev = [n for n in walk(f["body"]) if n.get("k") == "call" and callee(n) == EVAL_EXPR]
     ok = len(ev) == 1
     why = "expected one eval_expr call"
+    ix = Index(f["body"])
     if ok:
-        store = peel(ev[0]["args"][1])
+        store = resolve(ev[0]["args"][1])
+        stid = local_id(ev[0]["args"][1])
+        if stid is not None and [n for n in ix.nodes if n.get("k") == "mcall" and is_local(n["recv"], stid) and n["name"] in ("insert", "extend", "entry")]:
+            store = {}
         ok = store.get("k") == "call" and callee(store).endswith("default::Default::default") or (store.get("k") == "call" and callee(store).split("::")[-1] in ("new", "default"))
         why = "the symbol store passed to eval_expr is `%s`, not an empty store: symbols in the solver reply would be given values from elsewhere" % show(ev[0]["args"][1])
         if ok:
-            v = peel(ev[0]["args"][2])
-            init = simple_let_init(defs, v["id"]) if v.get("k") == "local" else v
-            g = strip_try(init) if init is not None else {}
+            g = norm.value_source(ix, defs, ev[0]["args"][2])
             ok = g.get("k") == "mcall" and g["name"] == "get_value" and "SolverContext" in (g.get("path") or "") and "expr" in P and is_local(g["args"][-1], P["expr"])
             why = "the evaluated term is not the solver's get_value reply for the requested expression"
     ctx.inst("R03.4", "get_smt_value", ok, f["span"], why, sample=show(ev[0]) if ev else None)
